@@ -112,7 +112,7 @@ class Gen:
         self.table = {}
         self.feat = dict(bits=True, data=True, marker=True, regex=True, eos=True, ref=True, refsel=True, seq=True, opt=True,
                          move=True, em=True, clsopts=True, lambdas=True, offset_atoms=False, codegen_opts=False,
-                         begins_ref=True, defaults=True)
+                         begins_ref=True, defaults=True, regex_excl=False, shared_selector=False)
         if features:
             self.feat.update(features)
 
@@ -166,9 +166,32 @@ class Gen:
             return 'const'
         if e[0] == 'field':
             return rng.choice(['field', 'field', 'lambda'] if self.feat['lambdas'] else ['field'])
-        if self.uses_lambda_only(e):
+        if self.uses_lambda_only(e) or not self.deferrable(e):
             return 'lambda'
         return rng.choice(['expr', 'expr', 'lambda'] if self.feat['lambdas'] else ['expr'])
+
+    def has_field(self, e):
+        if e[0] == 'field':
+            return True
+        if e[0] == 'lit':
+            return False
+        return any(self.has_field(x) for x in e[1:] if isinstance(x, tuple) and x and x[0] in
+                   ('lit', 'field', 'un', 'bin', 'choose', 'choosed', 'ite', 'attr', 'offset', 'rawlen')) or \
+            any(self.has_field(y) for x in e[1:] if isinstance(x, list) for y in x if isinstance(y, tuple))
+
+    def deferrable(self, e):
+        """every non-literal sub-expression mentions a field (otherwise python evaluates it eagerly in the class body)"""
+        if e[0] == 'lit':
+            return True
+        if not self.has_field(e):
+            return False
+        subs = [x for x in e[1:] if isinstance(x, tuple) and x and x[0] in
+                ('lit', 'field', 'un', 'bin', 'choose', 'choosed', 'ite', 'attr')]
+        subs += [y for x in e[1:] if isinstance(x, list) for y in x if isinstance(y, tuple) and y and y[0] in
+                 ('lit', 'field', 'un', 'bin', 'choose', 'choosed', 'ite', 'attr')]
+        if e[0] in ('ite', 'choose', 'choosed', 'un') and not self.has_field(e[1] if e[0] != 'un' else e[2]):
+            return False
+        return all(self.deferrable(x) for x in subs)
 
     def uses_lambda_only(self, e):
         if e[0] in ('attr', 'offset', 'rawlen'):
@@ -204,7 +227,7 @@ class Gen:
             return ('dmarker', m, rng.random() < 0.4, b'')
         if kind == 'dregex':
             alts = rng.choice([[('plus', 88)], [('lit', b':'), ('lit', b';;')], [('lit', b'\r\n'), ('plus', 10)], [('lit', b'ab'), ('lit', b'a')]])
-            return ('dregex', alts, True if rng.random() < 0.75 else False, b'')
+            return ('dregex', alts, (not self.feat['regex_excl']) or rng.random() < 0.6, b'')
         return ('deos', b'')
 
     def elem(self, ints, cid, depth, allow_var=True):
@@ -240,7 +263,13 @@ class Gen:
         else:
             l = first[1]
             dflt = 0 if l[0] == 'int' else b''
-        return ('refsel', e, 'expr' if rng.random() < 0.6 or not self.feat['lambdas'] else 'lambda', dflt)
+        has_pkt = any(o[1][0] == 'pkt' for o in opts)
+        # a deferred selector holds its packet options as shared instances (finding D9): only on request
+        if has_pkt and not self.feat['shared_selector']:
+            how = 'lambda'
+        else:
+            how = 'expr' if rng.random() < 0.6 or not self.feat['lambdas'] else 'lambda'
+        return ('refsel', e, how, dflt)
 
     def some_overrides(self, c):
         """keyword overrides for the integer leaves of class c"""
@@ -333,8 +362,8 @@ class Gen:
     def how_cond(self, w):
         if w[0] == 'un' and w[1] == 'Truth' and w[2][0] == 'field':
             return self.rng.choice(['field', 'lambda'] if self.feat['lambdas'] else ['field'])
-        if w[0] == 'lit':
-            return 'lambda' if self.feat['lambdas'] else 'const'
+        if w[0] == 'lit' or not self.deferrable(w):
+            return 'lambda'
         return self.how(w)
 
     def until_expr(self, i, el, ints):
